@@ -97,13 +97,23 @@ static void runEpisodes(const std::vector<std::string>& lines, long from)
         shared->done = 1;
 }
 
-static void runThreadWorkload(const std::vector<std::string>& lines, const std::string& path, unsigned seed, bool yields)
+#include <atomic>
+static std::atomic<int> threadsWaiting{0};
+
+static void runThreadWorkload(const std::vector<std::string>& lines, const std::string& path, unsigned seed, bool yields, int barrier)
 {
     out = fopen(path.c_str(), "w");
     if (!out)
         _exit(4);
     std::mt19937 rng(seed);
     yieldRng = yields ? &rng : nullptr;
+    if (barrier > 0)
+    {
+        // all threads start their workloads together
+        threadsWaiting.fetch_add(1);
+        while (threadsWaiting.load() < barrier)
+            std::this_thread::yield();
+    }
     for (const auto& line : lines)
     {
         json c = json::parse(line);
@@ -143,14 +153,14 @@ static int threadedMain(const char* casesPath, const std::string& prefix)
             if (phase == 0)
             {
                 for (const auto& w : work)
-                    runThreadWorkload(w.second, prefix + ".alone." + std::to_string(w.first), seed, false);
+                    runThreadWorkload(w.second, prefix + ".alone." + std::to_string(w.first), seed, false, 0);
             }
             else
             {
                 std::vector<std::thread> threads;
                 for (const auto& w : work)
                     threads.emplace_back(runThreadWorkload, std::cref(w.second), prefix + ".conc." + std::to_string(w.first),
-                                         seed * 7919u + static_cast<unsigned>(w.first), true);
+                                         seed * 7919u + static_cast<unsigned>(w.first), true, static_cast<int>(work.size()));
                 for (auto& t : threads)
                     t.join();
             }
